@@ -22,7 +22,10 @@ pub fn main(tier: &str, seed: u64, n_override: Option<u64>) {
     let mut rng = Rng::new(seed ^ 0xC11);
     for idx in 0..n {
         let p = known_params(idx);
-        let j = { let r = Robot { p, cons: None }; origin_joints(&mut rng, &r, PoseKind::Reachable) };
+        let j = { let r = Robot { p, cons: None }; let j0 = origin_joints(&mut rng, &r, PoseKind::Reachable);
+            // some poses have the elbow a fraction of a milliradian from stretched / folded: two distinct answers that nearly coincide
+            if idx % 8 == 5 { let mut qm = r.to_model(&j0); let e = 10f64.powf(rng.range(-5.0, -3.0)) * if rng.bool() { 1.0 } else { -1.0 };
+                qm[2] = -f64::atan2(p.a2, p.c3) + if rng.below(4) == 0 { PI + e } else { e }; r.from_model(&qm) } else { j0 } };
         let (f, t, w) = if idx % 3 == 0 { random_constraints(&mut rng, Some(&j)) } else { ([-3.1; 6], [3.1; 6], 0.0) };
         let cons = Constraints::new(f, t, w);
         let mut base_t = random_iso(&mut rng, false);
